@@ -265,3 +265,39 @@ Fixpoint decision_ok_from (c : config) (dead : list Z) (pending : option (Z * Z 
       end
   end.
 Definition decision_ok (c : config) (tr : list ev) : bool := decision_ok_from c [] None 3 tr.
+
+(* ------------------------------------------------------------------ *)
+(* further trace clauses                                                *)
+(* ------------------------------------------------------------------ *)
+(* C09: the reason reported by Termination: loss when every character has been announced dead,
+   otherwise win when every enemy has, otherwise timeout with the cycle limit reached *)
+Fixpoint reason_ok_from (c : config) (dead : list Z) (tr : list ev) : bool :=
+  match tr with
+  | [] => true
+  | VTargetDeath t _ :: r => reason_ok_from c (t :: dead) r
+  | VTermination reason tot :: r =>
+      let n := Z.of_nat (length (c_units c)) in
+      let nc := Z.of_nat (length (filter d_char (c_units c))) in
+      let ids := map Z.of_nat (seq 1 (Z.to_nat n)) in
+      let alive_c := existsb (fun i => (i <=? nc) && negb (zin i dead)) ids in
+      let alive_e := existsb (fun i => (nc <? i) && negb (zin i dead)) ids in
+      (if negb alive_c then reason =? 1
+       else if negb alive_e then reason =? 2
+       else (reason =? 3) && (c_cycle_limit c <=? ftoZ (PrimFloat.div tot 100))) &&
+      reason_ok_from c dead r
+  | _ :: r => reason_ok_from c dead r
+  end.
+Definition reason_ok (c : config) (tr : list ev) : bool := reason_ok_from c [] tr.
+
+(* C08: a unit whose HP reached zero without a revive effect (LimboWaitHeal not cancelled) is dead
+   from that moment, before its death is announced: it starts no action and none of its queued
+   inserts is executed *)
+Fixpoint dead_state_from (ds : list Z) (tr : list ev) : bool :=
+  match tr with
+  | [] => true
+  | VLimbo t false :: r => dead_state_from (t :: ds) r
+  | VActionStart o _ _ :: r => negb (zin o ds) && dead_state_from ds r
+  | VInsertStart _ o _ :: r => negb (zin o ds) && dead_state_from ds r
+  | _ :: r => dead_state_from ds r
+  end.
+Definition dead_state_ok (tr : list ev) : bool := dead_state_from [] tr.
